@@ -13,6 +13,13 @@ pub use msg::Msg;
 use std::fmt;
 use xs_foundation::collections::vec::u8::VecU8;
 
+/// Most frames a message may have on the wire: one less than a `FrameBatch` can hold, so that a
+/// receiving socket can still prepend the peer's routing identity.
+pub(crate) const MAX_WIRE_FRAMES_PER_MESSAGE: usize = 254;
+/// Most frames the application may pass to `send_multipart()`: the sending socket may add one envelope
+/// frame (empty delimiter) of its own.
+pub(crate) const MAX_USER_FRAMES_PER_MESSAGE: usize = MAX_WIRE_FRAMES_PER_MESSAGE - 1;
+
 enum FrameBatchInner {
   Empty,
   Single(Msg),
